@@ -249,6 +249,18 @@ func (p *Program) SrcFuncs(pkgPath string) []*ssa.Function {
 			add(a)
 		}
 	}
+	// declared `func init()` functions are not members (they cannot be referred to); the synthetic initialiser calls them
+	if ini, ok := sp.Members["init"].(*ssa.Function); ok {
+		for _, b := range ini.Blocks {
+			for _, in := range b.Instrs {
+				if c, ok := in.(*ssa.Call); ok {
+					if f := c.Call.StaticCallee(); f != nil && f.Pkg == sp && strings.HasPrefix(f.Name(), "init#") {
+						add(f)
+					}
+				}
+			}
+		}
+	}
 	for _, m := range sp.Members {
 		switch m := m.(type) {
 		case *ssa.Function:
